@@ -64,7 +64,8 @@ func (us *UniqueSet) Remove(item interface{}) {
 
 // Each runs the function against all items in set.
 func (us *UniqueSet) Each(fn func(int, interface{})) {
-	items := us.items[:]
+	// iterate over a copy: fn may remove items from the set
+	items := append([]interface{}(nil), us.items...)
 
 	for i, item := range items {
 		fn(i, item)
